@@ -3,13 +3,14 @@
    Definitions only. The network is a Section variable `net` (one exchange: connect to the host's port 80, write the
    serialised request, parse one response - Http.serialize_request / Http.parse_response_* model the two halves), and so is
    name resolution (`resolves`); the build modelled is the one without the `tls` feature (request_tls = Err). *)
-From Hv Require Import Prelude Bytes TablesHttp Http.
+From Hv Require Import Prelude Bytes TablesHttp TablesClient Http.
 Open Scope N_scope.
 
-Definition S_http : bytes := [104;116;116;112;58;47;47].        (* "http://" *)
-Definition S_https : bytes := [104;116;116;112;115;58;47;47].   (* "https://" *)
+(* scheme prefixes, followed status variants and the relative-Location test come from the generated TablesClient.v *)
+Definition S_http : bytes := CLIENT_HTTP_PREFIX.     (* "http://" *)
+Definition S_https : bytes := CLIENT_HTTPS_PREFIX.   (* "https://" *)
 Definition V_HTTP11 : bytes := [72;84;84;80;47;49;46;49].       (* "HTTP/1.1" *)
-Definition SLASH : N := 47.
+Definition SLASH : N := CLIENT_RELATIVE_FIRST_BYTE.   (* '/' : also the separator parse_url splits host from path at *)
 Definition QMARK : N := 63.
 
 (* str::strip_prefix *)
@@ -44,8 +45,7 @@ Definition C_302 : N := 302.
 Definition C_307 : N := 307.
 
 (* r.status_code == MovedPermanently || == TemporaryRedirect || == Found *)
-Definition is_redirect (s : N) : bool :=
-  let c := status_code s in (c =? C_301) || (c =? C_307) || (c =? C_302).
+Definition is_redirect (s : N) : bool := existsb (N.eqb s) CLIENT_FOLLOWED_STATUS.
 
 Record cstate := {
   c_https : bool;                 (* self.protocol *)
